@@ -216,6 +216,8 @@ var ReservedTexts = []string{"null", "true", "false", "nan", "$5", "$0", "$ion",
 	"imports", "symbols", "max_id", "", "+", "-", "//", "]", "+inf", "-inf", "null.int", "$", "$$", "a b", "a'b", "a\"b", "a\\b",
 	"$10", "$007", "$+5", "$-5", "inf", "_", "x1", "1x", "2020T", "a::b", "{", "}", "*", "/*", "*/", "...", "é", "日本", "😀",
 	// letters outside ASCII: an identifier may only consist of ASCII letters, digits, $ and _
+	// identifiers that only begin like a version marker or a system symbol
+	"$ion_1_0_1", "$ion_1_0a", "$ion_1_0$", "$ion_2_0x", "$ion_1_1_beta", "$ion_10", "$ion_1", "$ion_1_0_", "$ion_symbol_table2", "$ion_symbol_tabl", "$ionx",
 	"você", "três", "õ", "µ", "ªº", "κε", "ек", "número", "Ångström", "ñ_1", "ǅ", "ß", "a­b", "ª", "xµ", "_º"}
 
 var runePool = []rune{'a', 'b', 'z', 'A', 'Z', '0', '9', '_', '$', ' ', '\'', '"', '\\', '/', '?', '\n', '\r', '\t', 0, 7, 8, 11, 12, 0x1f, 0x7f,
